@@ -9,14 +9,26 @@ pub fn is_bad(kind: &str) -> bool {
     kind.starts_with("syntax") || kind == "type_mismatch" || kind == "undefined_statement"
 }
 
-/// Run a program text (lines) to idle with the given replies; (ok, error kind, panicked).
-pub fn run_text(lines: &[String], replies: &[&str], seed: u64, budget: usize) -> (bool, String, bool) {
+pub struct RunOutcome {
+    pub ok: bool,
+    pub kind: String,
+    pub panicked: bool,
+    /// everything the program printed, in order
+    pub printed: String,
+    /// the line an error was reported in ("" for none / the immediate line)
+    pub err_line: String,
+}
+
+/// Run a program text (lines) to idle with the given replies.
+pub fn run_text_full(lines: &[String], replies: &[&str], seed: u64, budget: usize) -> RunOutcome {
     let mut s = Sess::new(false, false);
+    let mut o = RunOutcome { ok: false, kind: String::new(), panicked: false, printed: String::new(), err_line: String::new() };
     s.apply(&call_randomize(seed));
     for l in lines {
         let ev = s.apply(&call_submit(l));
         if ev["panic"] == true {
-            return (false, String::new(), true);
+            o.panicked = true;
+            return o;
         }
     }
     let mut ev = s.apply(&call_submit("RUN"));
@@ -24,14 +36,25 @@ pub fn run_text(lines: &[String], replies: &[&str], seed: u64, budget: usize) ->
     let mut ri = 0;
     loop {
         if ev["panic"] == true {
-            return (false, String::new(), true);
+            o.panicked = true;
+            return o;
+        }
+        for x in ev["out"].as_array().into_iter().flatten() {
+            if x["t"] == "print" {
+                o.printed.push_str(&text_of(&x["text"]));
+            }
         }
         if ev["res"]["ok"] == false {
-            return (false, ev["res"]["kind"].as_str().unwrap_or("").to_string(), false);
+            o.kind = ev["res"]["kind"].as_str().unwrap_or("").to_string();
+            if ev["res"]["hl"] == true {
+                o.err_line = text_of(&ev["res"]["line"]);
+            }
+            return o;
         }
         n += 1;
         if n > budget {
-            return (true, String::new(), false);
+            o.ok = true;
+            return o;
         }
         match s.mode() {
             "running" => ev = s.apply(&call_simple("continue")),
@@ -40,9 +63,18 @@ pub fn run_text(lines: &[String], replies: &[&str], seed: u64, budget: usize) ->
                 ri += 1;
                 ev = s.apply(&call_provide(r));
             }
-            _ => return (true, String::new(), false),
+            _ => {
+                o.ok = true;
+                return o;
+            }
         }
     }
+}
+
+/// (ok, error kind, panicked)
+pub fn run_text(lines: &[String], replies: &[&str], seed: u64, budget: usize) -> (bool, String, bool) {
+    let o = run_text_full(lines, replies, seed, budget);
+    (o.ok, o.kind, o.panicked)
 }
 
 pub fn replay_rows(tlc_out: &str, rep: &mut Report) {
@@ -52,7 +84,8 @@ pub fn replay_rows(tlc_out: &str, rep: &mut Report) {
         rep.ctx = Some(json!({"sub": "c06-replay", "row": payload}));
         let text = text_of(&row["text"]);
         let an = analyze(&text);
-        let (ok, kind, panicked) = run_text(&[text.clone()], &["1"], 1, 200);
+        let run = run_text_full(&[text.clone()], &["1"], 1, 200);
+        let (ok, kind, panicked) = (run.ok, run.kind.clone(), run.panicked);
         rep.sample(json!({"line": text, "model_checker_error": row["aerr"], "model_run": [row["run_ok"], row["run_kind"]]}));
         if an.panicked.is_some() || panicked {
             rep.violation("C06", "panic", json!({"analyzer": an.panicked.is_some()}), json!({"line": text}));
@@ -72,6 +105,17 @@ pub fn replay_rows(tlc_out: &str, rep: &mut Report) {
         }
         if row["run_kind"] != "unknown" && (row["run_ok"] != ok || row["run_kind"].as_str().unwrap_or("") != kind) {
             rep.violation("C06", "run_differs_from_model", json!({"model": row["run_kind"], "real": kind}), json!({"line": text}));
+        }
+        // C03 on the same one-line programs: exactly the printed output and, on failure, the line
+        if row["out_known"] == true {
+            rep.count("outputs_compared");
+            let model_out = from_bytes(&row["out"]);
+            let model_line = text_of(&row["err_line"]);
+            if model_out != run.printed.as_bytes() || (!ok && row["run_ok"] == false && model_line != run.err_line) {
+                let what = if model_out != run.printed.as_bytes() { "printed" } else { "error_line" };
+                rep.violation("C03", "output_differs_from_model", json!({"what": what}),
+                    json!({"line": text, "model_printed": text_of(&row["out"]), "real_printed": run.printed, "model_error_line": model_line, "real_error_line": run.err_line}));
+            }
         }
         if !aerr.is_empty() || !ok {
             rep.count("rows_nontrivial");
